@@ -282,12 +282,12 @@ func (g *lockGen) plan() *BlockPlan {
 			locks = append(locks, Ev{"v": vid, "t": t, "amt": amt})
 		}
 	}
-	if rare(3) && !g.exodus {
+	if !rare(3) && !g.exodus {
 		// boundary-seeking locks for jailed (downgraded) validators whose jail time is over or about to be: either a top-up of a token
 		// they already hold (which must NOT re-admit them while another listed threshold is unmet, also one they hold nothing of),
 		// or exactly what is missing for every threshold (which must)
 		for vi, v := range st.Val {
-			if !v.Exists || v.Status != "Downgrade" || now+1 < v.JailedUntil || rare(3) {
+			if !v.Exists || v.Status != "Downgrade" || now+1 < v.JailedUntil || rare(2) {
 				continue
 			}
 			var held []int
